@@ -158,6 +158,9 @@ pub fn run(tier: Tier, seed: u64) -> i32 {
         }
     }
     run.random("random", tier.pick(2_000_000, 60_000_000), 400, case_random);
+    if tier == Tier::Thorough && !run.failed() {
+        run.fuzz("libfuzzer", 1_500_000, 8, 600, fuzz_case);
+    }
     run.finish()
 }
 
@@ -184,4 +187,9 @@ pub fn replay(doc: &serde_json::Value) -> i32 {
             1
         }
     }
+}
+
+/// entry point of the libFuzzer target
+pub fn fuzz_case(data: &[u8]) -> Outcome {
+    case_random(data)
 }
